@@ -222,7 +222,9 @@ class C18(CtxCheck):
         # racing lookups of a SYNCHRONOUS factory through the asynchronous API: still one generation, one event
         sync_races = [{"race": {"async": False, "types": t, "own_child": False, "tasks": [[a, "A", pre], [b, "A" if t == 1 else "B", pre]]}}
                       for t in (1, 2) for a, b in (("method", "method"), ("shortcut", "inject"), ("inject", "method")) for pre in (False, True)]
-        return self._units0(tier, seed) + two_type_units(tier) + reent.units(tier) + compadds.units(tier) + sync_races
+        from .c04race import adder_units
+
+        return self._units0(tier, seed) + two_type_units(tier) + reent.units(tier) + compadds.units(tier) + sync_races + adder_units(tier)
 
     def work(self, unit: dict, tier: str) -> dict:
         if "compadds" in unit:
